@@ -63,7 +63,7 @@ func runAccountSide(r *vk.Run) int {
 	}
 	r.Set("account_kinds", reps)
 	r.Set("account_cases", int(total))
-	r.Set("distinct_nontrivial", map[string]int64{"accepted_with_signer_A": acceptedA, "accepted_with_other_sender": other, "rejected": rejected})
+	r.Set("account_outcome_classes", map[string]int64{"accepted_with_signer_A": acceptedA, "accepted_with_other_sender": other, "rejected": rejected})
 	if acceptedA == 0 || other == 0 || rejected == 0 {
 		vk.Fatalf("account side is vacuous: outcomes A=%d other=%d rejected=%d", acceptedA, other, rejected)
 	}
